@@ -2110,12 +2110,18 @@ class TypeBlocks(ContainerOperand):
             return TypeBlocks.from_blocks(b[row_key, column])
 
         # pass a generator to from_block; will return a TypeBlocks or a single element
-        return self.from_blocks(
+        tb = self.from_blocks(
                 self._slice_blocks(
                         row_key=row_key,
                         column_key=column_key),
                 shape_reference=self._shape
                 )
+        if not tb._blocks and row_key is not None:
+            # no block was sliced, so the row count was taken from self: apply the row selection to it
+            rows = 1 if isinstance(row_key, INT_TYPES) else len(np.empty(self._shape[0], dtype=bool)[row_key])
+            if rows != tb._shape[0]:
+                return self.from_zero_size_shape((rows, 0))
+        return tb
 
     def _extract_iloc(self,
             key: GetItemKeyTypeCompound
@@ -2257,14 +2263,23 @@ class TypeBlocks(ContainerOperand):
         '''
         if isinstance(key, tuple):
             # column dropping can leed to a TB with generator that yields nothing;
-            return TypeBlocks.from_blocks(
+            tb = TypeBlocks.from_blocks(
                     self._drop_blocks(*key),
                     shape_reference=self._shape
                     )
-        return TypeBlocks.from_blocks(
-                self._drop_blocks(row_key=key),
-                shape_reference=self._shape
-                )
+            row_key = key[0]
+        else:
+            tb = TypeBlocks.from_blocks(
+                    self._drop_blocks(row_key=key),
+                    shape_reference=self._shape
+                    )
+            row_key = key
+        if not tb._blocks and row_key is not None:
+            # no block remained, so the row count was taken from self: apply the row deletion to it
+            rows = len(np.delete(np.empty(self._shape[0], dtype=bool), row_key))
+            if rows != tb._shape[0]:
+                return self.from_zero_size_shape((rows, 0))
+        return tb
 
 
     def __getitem__(self, key: GetItemKeyTypeCompound) -> 'TypeBlocks':
